@@ -116,7 +116,8 @@ def check(model, rep):
     rep.assumptions.append('FKinSpace/JacobianSpace/MatrixLog6/Adjoint as decided under C01/C02; parameters named *rot*/*omg* are '
                            'orientation tolerances and *pos*/ev position tolerances (documented roles)')
     fm = model.module(FHP)
-    kc = model.func(FHP, 'IKinSpaceConstrained')
+    from .common_ops import flat_function
+    kc = flat_function(model.func(FHP, 'IKinSpaceConstrained'))      # private jitted helpers of the module read in place
     # ---------------------------------------------------------------- R07.1 / R07.2 kernels
     r024(model, rep, rule='R07.1')
     rep.rules['R07.1'] = ('angular half of the error twist vs orientation tolerance, linear half vs position tolerance - in the '
@@ -171,7 +172,7 @@ def check(model, rep):
                     ok = a in accepted
                 rep.ob('R07.1', fi, '%s arg %d (%s) = %s' % (k.name, pi, role, a[:40]), ok,
                        'parameter %d of %s is the %s; got %s' % (pi, k.name, role, a), line=c.lineno)
-    rep.floor('R07.1', 'kernel call sites in Arm.IK/constrainedIK', n_sites, 3)
+    rep.floor('R07.1', 'kernel call sites in Arm.IK/constrainedIK', n_sites, 2)
 
     # ---------------------------------------------------------------- R07.3
     rep.rule('R07.3', 'clamp block: for j in range(len(theta)): theta[j] < lo[j] -> lo[j]; theta[j] > hi[j] -> hi[j]; between the '
@@ -262,8 +263,9 @@ def check(model, rep):
     # ---------------------------------------------------------------- R07.4
     rep.rule('R07.4', 'IK/constrainedIK: success may be true at a return only if FK(returned vector) wrote the state; the flag is the '
                       'kernel\'s; every exit leaves the reported pose coherent')
+    from .common_ops import flat_method
     for name in ('IK', 'constrainedIK'):
-        fi = arm.methods[name]
+        fi = flat_method(arm, name)          # solver attempts extracted into private helpers are read in place
         results = {}
         clamp = {}
 
@@ -388,7 +390,7 @@ def check(model, rep):
     rep.ob('R07.9', kc, 'start vector clamped before the first error evaluation', clamped_in_kernel or (n_calls9 > 0 and callers_ok),
            'the error of the raw start vector `%s` can already report success: started outside the limits at (or near) the goal the solver returns '
            'that vector with success, the arm then clamps it, and the pose it reports as reached is not reached' % kth9, line=kc.node.lineno)
-    rep.floor('R07.9', 'library call sites of IKinSpaceConstrained', n_calls9, 2)
+    rep.floor('R07.9', 'library call sites of IKinSpaceConstrained', n_calls9, 1)
     # ---------------------------------------------------------------- R07.8
     rep.rule('R07.8', 'IKFree reports success only on a path where the pose error of the very joint vector it returns was evaluated through FK and '
                       'found below the tolerance')
@@ -405,26 +407,37 @@ def check(model, rep):
             rt = ast.parse(pth.ret_src, mode='eval').body
         except SyntaxError:
             continue
-        if not (isinstance(rt, ast.Tuple) and len(rt.elts) == 2 and isinstance(rt.elts[1], ast.Constant) and rt.elts[1].value is True):
+        if not (isinstance(rt, ast.Tuple) and len(rt.elts) == 2):
             continue
+        flag = rt.elts[1]
+        if isinstance(flag, ast.Constant) and flag.value is not True:
+            continue                      # a failure path
         n_succ += 1
         vec = ast.unparse(rt.elts[0]).replace(' ', '')
-        ok = False
-        for text, tr in pth.facts.items():
-            if tr is not True:
-                continue
-            try:
-                f_ = ast.parse(pth.fact_src.get(text, text), mode='eval').body
-            except SyntaxError:
-                continue
+
+        def small_error_of_returned(f_):
             if not (isinstance(f_, ast.Compare) and len(f_.ops) == 1 and isinstance(f_.ops[0], (ast.Lt, ast.LtE, ast.Gt, ast.GtE))):
-                continue
+                return False
             lhs = f_.left if isinstance(f_.ops[0], (ast.Lt, ast.LtE)) else f_.comparators[0]        # the side that must be small
             fk_calls = [c for c in ast.walk(lhs) if isinstance(c, ast.Call) and ast.unparse(c.func) == 'self.FK' and c.args
                         and ast.unparse(c.args[0]).replace(' ', '') == vec]
-            mentions_goal = goal_p in {x.id for x in ast.walk(lhs) if isinstance(x, ast.Name)}
-            if fk_calls and mentions_goal:
-                ok = True
+            return bool(fk_calls) and goal_p in {x.id for x in ast.walk(lhs) if isinstance(x, ast.Name)}
+        ok = False
+        if isinstance(flag, ast.Constant):
+            for text, tr in pth.facts.items():
+                if tr is not True:
+                    continue
+                try:
+                    f_ = ast.parse(pth.fact_src.get(text, text), mode='eval').body
+                except SyntaxError:
+                    continue
+                if small_error_of_returned(f_):
+                    ok = True
+        else:
+            # the flag is computed, not chosen by a branch: it must be that very comparison (possibly wrapped in bool(...))
+            while isinstance(flag, ast.Call) and ast.unparse(flag.func) in ('bool', 'np.bool_') and len(flag.args) == 1:
+                flag = flag.args[0]
+            ok = small_error_of_returned(flag)
         rep.ob('R07.8', ikf, 'success path of IKFree (line %s)' % pth.ret_line, ok,
                'IKFree returns (%s, True) on a path whose conditions (%s) never compare FK(%s) with the goal: the reported success rests on '
                'something else than the pose the returned joints reach (e.g. the optimiser\'s residual, evaluated for a clamped copy)'
